@@ -45,6 +45,11 @@ class Report:
 
     def sample(self, s, cap=8):
         if len(self.samples) < cap:
+            try:
+                if len(json.dumps(s, default=_default)) > 20000:
+                    s = {"note": "sample larger than 20 kB omitted", "keys": sorted(s) if isinstance(s, dict) else None}
+            except Exception:
+                s = {"note": "unserialisable sample omitted"}
             self.samples.append(s)
 
     def violation(self, w):
@@ -127,6 +132,11 @@ class Report:
             "coverage": cov, "assumptions": self.assumptions, "wall_s": round(wall, 2),
             "violations": int(n_viol),
         }
+        if len(json.dumps(ev, default=_default)) > 1500000:  # evidence must stay a readable record
+            for k in ("violation_groups", "known_findings_printed", "inconclusive_reasons"):
+                cov[k] = [str(x)[:600] for x in cov.get(k, [])][:20]
+            cov["samples"] = [x if len(json.dumps(x, default=_default)) < 5000 else {"note": "omitted (large)"}
+                              for x in cov["samples"]]
         os.makedirs(EVIDENCE_DIR, exist_ok=True)
         tmp = os.path.join(EVIDENCE_DIR, self.prop + ".json.tmp")
         with open(tmp, "w") as f:
